@@ -169,6 +169,8 @@ class Interp(object):
         self.self_obj = None
         self._diverged = None
         self.opaque = 0
+        self.unroll_limit = 300
+        self.ffi_models = {}
         self.trace = False
 
     # ------------------------------------------------------------------
@@ -183,7 +185,8 @@ class Interp(object):
             st.havoc.add(o.ident)
         return o
 
-    def run(self, mod, fn, args=None, self_obj=None, state=None):
+    def run(self, mod, fn, args=None, self_obj=None, state=None,
+            bind_defaults=False):
         """Interpret `fn` (FunctionDef in Module `mod`) with the given
         parameter seeds (dict name -> abstract value; missing = default or
         Unknown)."""
@@ -210,10 +213,8 @@ class Interp(object):
                 env[p] = args[p]
             elif i == 0 and self_obj is not None and p in ("self", "cls"):
                 env[p] = self_obj
-            elif a.vararg and p == a.vararg.arg:
-                env[p] = UNK
-            elif a.kwarg and p == a.kwarg.arg:
-                env[p] = UNK
+            elif bind_defaults and p in defaults:
+                env[p] = self.ev(defaults[p], st)
             else:
                 env[p] = UNK
         end, killers = self.walk_body(fn.body, st, fr)
@@ -633,7 +634,10 @@ class Interp(object):
         r = self._after_ev(st)
         if r[0] is None:
             return r
-        tv = truth(t)
+        tv = self.truthy(t, st, s.test)
+        r = self._after_ev(st)
+        if r[0] is None:
+            return r
         lab = "%s@%d:%d" % (fr.mod.name, s.lineno, s.col_offset)
         if tv is True:
             st.must.add("T:" + lab)
@@ -922,7 +926,7 @@ class Interp(object):
                 if t0 is False:
                     out = cur
                     break
-                if t0 is None or n >= 300:
+                if t0 is None or n >= self.unroll_limit:
                     return self._while_abstract(s, cur, fr, lr, exits, t0)
                 n += 1
                 end, killers = self.walk_body(s.body, cur, fr)
@@ -1077,7 +1081,7 @@ class Interp(object):
             return UNK
         try:
             v = m(node, st)
-            if isinstance(v, Unknown):
+            if isinstance(v, Unknown) and getattr(self, "_diverged", None) is None:
                 self.opaque += 1
             return v
         except AnalysisError:
@@ -1219,7 +1223,7 @@ class Interp(object):
     def ex_UnaryOp(self, n, st):
         v = self.ev(n.operand, st)
         if isinstance(n.op, ast.Not):
-            t = truth(v)
+            t = self.truthy(v, st, n)
             return Unknown("bool") if t is None else (not t)
         if is_unk(v) or not is_concrete(v):
             return Unknown(type_name(v) if type_name(v) == "int" else None)
@@ -1304,6 +1308,28 @@ class Interp(object):
               ast.BitXor: "xor", ast.BitAnd: "and", ast.BitOr: "or", ast.LShift: "lshift",
               ast.RShift: "rshift", ast.FloorDiv: "floordiv"}
 
+    CMP_DUNDER = {ast.Lt: ("__lt__", "__gt__"), ast.LtE: ("__le__", "__ge__"),
+                  ast.Gt: ("__gt__", "__lt__"), ast.GtE: ("__ge__", "__le__")}
+
+    def truthy(self, v, st, node):
+        """truth(v), dispatching to __bool__/__nonzero__/__len__ of interpreted objects."""
+        if isinstance(v, AObj) and v.cnode is not None and v.ident not in st.havoc:
+            for meth in ("__bool__", "__len__"):
+                m = self.repo.find_method(v.mod, v.cnode, meth)
+                if m is None and meth == "__bool__":
+                    # class-level alias: __bool__ = __nonzero__
+                    for m2, c2 in self.repo.mro(v.mod, v.cnode):
+                        for b in c2.body:
+                            if isinstance(b, ast.Assign) and isinstance(b.value, ast.Name) and any(
+                                    isinstance(t, ast.Name) and t.id == "__bool__" for t in b.targets):
+                                m = self.repo.find_method(v.mod, v.cnode, b.value.id)
+                if m is not None:
+                    r = self.call_func(AFunc(m[0], m[1], self_obj=v, cls=v.cnode), [], {}, st, node)
+                    if meth == "__len__":
+                        return (r != 0) if isinstance(r, int) else None
+                    return truth(r)
+        return truth(v)
+
     def dunder_binop(self, op, a, b, st, node, inplace=False):
         nm = self.DUNDER.get(type(op))
         if nm is None:
@@ -1349,6 +1375,17 @@ class Interp(object):
                     t = truth(v)
                     if t is not None:
                         r = t if isinstance(op, ast.Eq) else (not t)
+            if r is None and type(op) in self.CMP_DUNDER:
+                for o, meth, other in ((left, self.CMP_DUNDER[type(op)][0], right),
+                                       (right, self.CMP_DUNDER[type(op)][1], left)):
+                    if isinstance(o, AObj) and o.cnode is not None and o.ident not in st.havoc:
+                        m = self.repo.find_method(o.mod, o.cnode, meth)
+                        if m is not None:
+                            v = self.call_func(AFunc(m[0], m[1], self_obj=o, cls=o.cnode), [other], {}, st, n)
+                            if v is NotImplemented:
+                                continue
+                            r = self.truthy(v, st, n)
+                            break
             if r is False:
                 return False
             if r is None:
@@ -1408,6 +1445,8 @@ class Interp(object):
         return self.getattr(base, n.attr, st, n)
 
     def getattr(self, base, attr, st, node=None):
+        if isinstance(base, AObj) and attr == "__class__" and base.cnode is not None:
+            return AClass(base.mod, base.cnode)
         if isinstance(base, AObj) and attr == "__dict__":
             return st.heap.setdefault(base.ident, {})
         if isinstance(base, AObj) and attr == "__new__":
@@ -1463,6 +1502,12 @@ class Interp(object):
         if isinstance(base, AExc):
             return UNK
         # attribute of a value: bound method model
+        if isinstance(base, (int, bytes, str, bytearray, tuple, list, dict, type(None), float)) and \
+                not hasattr(type(base), attr) and not (isinstance(base, int) and (
+                    attr in models.INTEGER_METHODS or attr in ("name", "value"))):
+            # (ints also stand for Integer objects and for IntEnum members)
+            self._diverged = self.do_raise("AttributeError", st, node)
+            return UNK
         return models.BoundMethod(base, attr)
 
     def class_attr(self, mod, cnode, attr, st, obj):
@@ -1601,7 +1646,9 @@ class Interp(object):
             starred = False
         if isinstance(f, AFunc):
             key = self._model_key(f)
-            mdl = self.extra_models.get(key) or models.REPO_MODELS.get(key)
+            mdl = self.extra_models.get(key, models.REPO_MODELS.get(key))
+            if mdl is False:
+                mdl = None        # explicitly: interpret the real body
             if mdl is not None and not starred:
                 return mdl(self, args, kwargs, st, node)
             if starred or "**" in kwargs:
@@ -1615,6 +1662,9 @@ class Interp(object):
             return self.make_super(args, st)
         if isinstance(f, ABuiltin) and f.name.startswith("ffi:"):
             self.event("ffi", f.name[4:], node, args=(args, kwargs))
+            mdl = self.ffi_models.get(f.name.rsplit(".", 1)[-1])
+            if mdl is not None:
+                return mdl(self, args, kwargs, st, node)
             return Unknown("int")
         if isinstance(f, ABuiltin):
             mdl = self.extra_models.get(f.name)
@@ -1639,6 +1689,9 @@ class Interp(object):
             return models.call_method(self, f.base, f.attr, args, kwargs, st, node)
         if isinstance(f, AFfi):
             self.event("ffi", f.lib + "." + f.sym, node, args=(args, kwargs))
+            mdl = self.ffi_models.get(f.sym)
+            if mdl is not None:
+                return mdl(self, args, kwargs, st, node)
             return Unknown("int")
         # unknown callee: it may mutate the containers it is given
         for a in list(args) + list(kwargs.values()):
@@ -1719,7 +1772,9 @@ class Interp(object):
         if any(e.split(".")[-1] in BUILTIN_EXC for e in exts):
             return AExc(c.node.name, tuple(args))
         key = c.mod.name + "." + c.node.name
-        mdl = self.extra_models.get(key) or models.REPO_MODELS.get(key)
+        mdl = self.extra_models.get(key, models.REPO_MODELS.get(key))
+        if mdl is False:
+            mdl = None
         if mdl is not None and not starred:
             return mdl(self, args, kwargs, st, node)
         obj = self.new_obj(st, c.mod, c.node, havoc=False)
